@@ -60,6 +60,10 @@ SEMANTIC = [
   ('inconsistent_distinct_interleaved_other_asked', 'P(x) :- Q(x, y);\nOther(x) :- Q(x, y);\nP(x) distinct :- R(x, y);',
    'Other', 'P'),
   ('recursion_without_base', 'P(x) :- P(y), Q(y, x);', 'P', 'P'),
+  # the self reference sits in the head value; the empty predicate is read by a predicate that has another rule
+  ('recursion_without_base_in_head_value', 'Fact(n) = n * Fact(n - 1) :- Q(n, z);\nP(x) :- Q(x, z);\nP(y) :- Q(x, z), y == Fact(x);',
+   'P', 'Fact'),
+  ('recursion_without_base_min_in_head', 'D(x) Min= D(y) + 1 :- Q(y, x);\nP(x) :- Q(x, z);\nP(d) :- Q(x, z), d == D(x);', 'P', 'D'),
   ('mutual_recursion_without_base', 'A(x) :- B(y), Q(y, x);\nB(x) :- A(y), Q(y, x);', 'A', None),
   ('functor_bad_argument', 'F(x) :- A(x);\nG := F(B: C);\nP(x) :- G(x);', 'P', 'B'),
   ('functor_bad_argument_2', 'H(x) :- D(x);\nF(x) :- A(x), H(x);\nG := F(A: C, Zz: C);\nP(x) :- G(x);', 'P', 'Zz'),
@@ -123,6 +127,22 @@ def bracket_corruptions(tier):
     for ins in (')', '(', ']', '"', '}'):
       j = t.index(':-') + 3
       out.append(('%s:insert%s@%d' % (s['name'], ins, j), t[:j] + ins + t[j:], pred))
+    # the same deletions in a program whose last statement has no semicolon
+    t2 = t.rstrip()
+    if t2.endswith(';'):
+      t2 = t2[:-1]
+      for i in [i for i in pos if i < len(t2)][::max(1, step * 2)]:
+        out.append(('%s:delete@%d(%s):no-final-semicolon' % (s['name'], i, t[i]), t2[:i] + t2[i + 1:], pred))
+  # a call whose closing parenthesis is missing while the text still ends in `)`
+  for name_, text_, pred_ in (('unclosed_call_ends_in_paren', E + 'R(x, Abs(x)) :- Q(x, y);\nP(x) :- R(x, Abs(x', 'P'),
+                              ('unclosed_call_swallows_statements', E + 'P(x) :- Q(x, Abs(y);\nR(z) :- Q(z, w), S(w)', 'R'),
+                              ('unclosed_call_in_fact', E + 'P(1, Abs(2)', 'P'),
+                              # the variables of the unclosed call are bound by another conjunct
+                              ('unclosed_last_call_vars_bound_elsewhere',
+                               E + 'T(1); T(2); T(-2);\nR(x, y) :- T(x), T(y), y > x;\nP(x) :- T(x), R(x, Abs(x)', 'P'),
+                              ('unclosed_middle_call_vars_bound_elsewhere',
+                               E + 'T(1);\nR(x, y) :- T(x), T(y), y >= x;\nP(x) :- T(x), R(x, Abs(x);\nT(2);\nT(3)', 'P')):
+    out.append((name_, text_, pred_))
   return out
 
 
